@@ -272,6 +272,46 @@ func H_C09_list_observers_pure() {
 	verifReach("end")
 }
 
+// hOwnCopy returns a string with storage of its own (natively a real copy, so that a result aliasing
+// a reused buffer cannot drag the copy along).
+func hOwnCopy(s string) string {
+	return string(append([]byte(nil), s...))
+}
+
+// String and FormatString return plain Go values: a text handed out earlier reads the same after later
+// calls on the same or on another container, and after mutation of the receiver.
+func H_C09_text_results_are_stable() {
+	x := nondetInt()
+	verifAssume(verifAnd(x >= 0, x < 10))
+	n := nondetIntRange(0, 10)
+	var a, b any
+	if nondetIntRange(0, 1) == 0 {
+		a, b = NewList(x, NewList(true)), NewObject("k", NewList(x, "s"))
+	} else {
+		a, b = NewObject("k", x), NewList("s", x)
+	}
+	s1, _ := hFormatAny(a, n)
+	t1 := hStringAny(a)
+	s1c, t1c := hOwnCopy(s1), hOwnCopy(t1)
+	before := hSnapAny(a)
+	// later calls: another container, then the same container with another indent
+	s2, _ := hFormatAny(b, 10-n)
+	t2 := hStringAny(b)
+	s2c, t2c := hOwnCopy(s2), hOwnCopy(t2)
+	hFormatAny(a, 10-n)
+	hStringAny(a)
+	verifAssert(hExact(before, hSnapAny(a)), "String and FormatString leave the receiver unchanged")
+	if l, ok := a.(List); ok {
+		l.Add("later")
+	} else {
+		a.(Object).Set("later", 1)
+	}
+	hFormatAny(a, n)
+	hStringAny(a)
+	verifAssert(s1 == s1c && t1 == t1c && s2 == s2c && t2 == t2c, "a text returned by String or FormatString is not changed by later calls or mutations")
+	verifReach("end")
+}
+
 const hNumObjDerive = 9
 
 func hDeriveObject(a, b Object, k1 string, d int) *hParty {
